@@ -10,6 +10,7 @@ package main
 import (
 	"bytes"
 	"fmt"
+	"math/big"
 	"strings"
 	"time"
 
@@ -55,6 +56,23 @@ func c05ViaDoc(d string) (out string, ok bool, crash string) {
 		return o, false, ""
 	}
 	return o[len(`<path d="`) : len(o)-len(`"/>`)], true, ""
+}
+
+func c05CollapseSpaces(d string) string {
+	var sb strings.Builder
+	prev := false
+	for i := 0; i < len(d); i++ {
+		if d[i] == ' ' {
+			if !prev {
+				sb.WriteByte(' ')
+			}
+			prev = true
+		} else {
+			sb.WriteByte(d[i])
+			prev = false
+		}
+	}
+	return strings.TrimSpace(sb.String())
 }
 
 // ---------- exact-domain generator ----------
@@ -447,8 +465,17 @@ func c05Exact(d string) bool {
 			i++
 			continue
 		}
-		f, _ := pstrconv.ParseFloat([]byte(d[i : i+n]))
+		lx := d[i : i+n]
+		f, _ := pstrconv.ParseFloat([]byte(lx))
 		if f != float64(int64(f*8))/8 || f > 1<<24 || f < -(1<<24) {
+			return false
+		}
+		// the float must be the exact value of the lexeme (no underflow / rounding)
+		if k := strings.IndexAny(lx, "eE"); k >= 0 && len(lx)-k > 5 {
+			return false
+		}
+		q, ok := new(big.Rat).SetString(strings.TrimSuffix(strings.TrimPrefix(lx, "+"), "."))
+		if !ok || q.Cmp(new(big.Rat).SetFloat64(f)) != 0 {
 			return false
 		}
 		i += n
@@ -575,17 +602,29 @@ var c05Regression = []struct{ in, want string }{
 	{"M1. 2.L3. 4", ""},
 	{"", ""},
 	{"  ", ""},
+	// former known findings K-C05-2, 3, 4, 5, 10 and the half-rewritten buffer (fixed in /repo)
+	{"M0 0C1 1 2 2 3 3zC-2 -2 5 5 6 6", "M0 0C1 1 2 2 3 3zC-2-2 5 5 6 6"},
+	{"M0 0C0 5 5 5 5 0L5 0S10 -5 10 0", "M0 0C0 5 5 5 5 0V0s5-5 5 0"},
+	{"M0 0Q0 0 5 5T10 0", "M0 0T5 5t5-5"},
+	{"M0 0C0 0 0 0 5 5S10 0 10 5", "M0 0S0 0 5 5s5-5 5 0"},
+	{"M0 0C0 5 5 5 5 0 5 0 5 0 5 0 5 0 9 9 8 8", ""},
+	{"M1.e5 2", "M1.e5 2"},
+	{"M0 0A5 3 50. 1 1 4 4V9", "M0 0A5 3 50. 1 1 4 4V9"},
+	{"M10 10 A5 3 50. 1 1 4 4", "M10 10A5 3 50. 1 1 4 4"},
 }
+
+// invalid inputs (bad arc flags): only model correspondence (the rest of the input is kept verbatim)
+var c05Invalid = []string{"M 10 10 L 20 20 A 1 1 0 2", "M 10 10 L 20 20 A 1 1 0 2 0 1 1L5 5", "M0 0A1 1 0 1 x 5 5", "A1.1.0.0.0.0.2.3", "M1 1a5 5 0 0.5 1 1 1z"}
 
 func init() {
 	register("C05", func(c *Ctx) error {
-		// h.NewRNG(seed) streams of neighbouring seeds are shifted copies of each other; derive a scrambled base
-		// state from the first output so that every seed gives unrelated cases (still a function of VERIF_SEED only)
-		c.Rng = &h.RNG{S: c.Rng.Next()*0xD6E8FEB86659FD93 + 0xC05}
 		if err := c05Known(c); err != nil {
 			return err
 		}
 		if err := c05Paths(c); err != nil {
+			return err
+		}
+		if err := c05Mutated(c); err != nil {
 			return err
 		}
 		if err := c05Tolerance(c); err != nil {
@@ -642,8 +681,8 @@ func c05Paths(c *Ctx) error {
 		r := c.Rng.Fork()
 		add(c05GenPath(r, false, r.Chance(30)))
 	}
-	// a small side stream that aims at the known-finding triggers (excluded from the model comparison)
-	for i := 0; i < n/20; i++ {
+	// a side stream that aims at the former known-finding triggers (curve after closepath / removed segment / degenerate curve, trailing dots)
+	for i := 0; i < n/5; i++ {
 		r := c.Rng.Fork()
 		add(c05GenPath(r, true, false))
 	}
@@ -651,22 +690,24 @@ func c05Paths(c *Ctx) error {
 	var lines []string
 	for _, cs := range cases {
 		lines = append(lines, "model.c05.shorten "+h.HexS(cs.d)+" "+h.Int(0)+" "+h.Int(0))
-		lines = append(lines, "model.c05.shorten "+h.HexS(cs.d)+" "+h.Int(0)+" "+h.Int(15))
+		// inside a document the attribute value reaches ShortenPathData with runs of spaces collapsed and trimmed
+		lines = append(lines, "model.c05.shorten "+h.HexS(c05CollapseSpaces(cs.d))+" "+h.Int(0)+" "+h.Int(15))
 		lines = append(lines, c05HoldsLine(cs.d, cs.direct))
 		if cs.docOK {
 			lines = append(lines, c05HoldsLine(cs.d, cs.viaDoc))
 		} else {
 			lines = append(lines, "echo -")
 		}
+		lines = append(lines, "spec.c05.guards "+h.HexS(cs.d))
 	}
 	rep, err := h.Eval(lines)
 	if err != nil {
 		return err
 	}
 	for i, cs := range cases {
-		m0, ok0, msg0 := h.DecodeReply(rep[4*i])
-		m15, ok15, msg15 := h.DecodeReply(rep[4*i+1])
-		vd := c05DecodeHolds(rep[4*i+2])
+		m0, ok0, msg0 := h.DecodeReply(rep[5*i])
+		m15, ok15, msg15 := h.DecodeReply(rep[5*i+1])
+		vd := c05DecodeHolds(rep[5*i+2])
 		key := h.Q([]byte(cs.d))
 		nontriv := strings.Join(strings.Fields(strings.ReplaceAll(cs.d, ",", " ")), " ") != cs.direct && len(cs.direct) > 0
 		st.Count(key, nontriv)
@@ -682,6 +723,18 @@ func c05Paths(c *Ctx) error {
 		if _, e := c05Interp(cs.d); e != nil && strings.TrimSpace(cs.d) != "" {
 			c.R.Add(h.Finding{Stage: st.Name, Kind: "diff", What: "Lean spec and Go interpreter disagree on validity of the input: " + e.Error(), Input: key, Hex: h.HexS(cs.d)})
 		}
+		// guards of the Lean theorem path_geometry_partial, measured: scanGuard must hold on every valid input
+		// without trailing-dot numbers (otherwise the guard is wider than documented)
+		if gb, ok, _ := h.DecodeReply(rep[5*i+4]); ok {
+			g := h.DecodeListReply(gb)
+			if len(g) == 2 {
+				sg, nh := string(g[0]) == "1", string(g[1]) == "1"
+				st.Tag(fmt.Sprintf("theorem-guards scanGuard=%v noHazard=%v", sg, nh))
+				if !sg && !strings.Contains(vd.hazards, "traildot") {
+					c.R.Add(h.Finding{Stage: st.Name, Kind: "diff", What: "scanGuard (scanner reads the input as the specification does) fails on a valid input without trailing dot", Input: key, Hex: h.HexS(cs.d)})
+				}
+			}
+		}
 		haz := vd.hazards != ""
 		if haz {
 			st.Tag("trigger=" + strings.Split(vd.hazards, ",")[0])
@@ -696,7 +749,7 @@ func c05Paths(c *Ctx) error {
 			have      bool
 		}{{"ShortenPathData", cs.direct, vd, true}, {"svg.Minify", cs.viaDoc, c05Verdict{}, cs.docOK}}
 		if cs.docOK {
-			outs[1].vd = c05DecodeHolds(rep[4*i+3])
+			outs[1].vd = c05DecodeHolds(rep[5*i+3])
 		}
 		for _, o := range outs {
 			if !o.have {
@@ -707,20 +760,10 @@ func c05Paths(c *Ctx) error {
 				continue
 			}
 			if !o.vd.validOut {
-				f := h.Finding{Stage: st.Name, Kind: "fail", What: o.name + ": output is not valid path data", Input: key, Hex: h.HexS(cs.d), Impl: h.Q([]byte(o.out))}
-				if strings.Contains(vd.hazards, "traildot") {
-					f.Known = "K-C05-5"
-					c.R.ExcludedKnown++
-				}
-				c.R.Add(f)
+				c.R.Add(h.Finding{Stage: st.Name, Kind: "fail", What: o.name + ": output is not valid path data", Input: key, Hex: h.HexS(cs.d), Impl: h.Q([]byte(o.out))})
 				continue
 			}
 			if !o.vd.equiv {
-				if haz {
-					c.R.ExcludedKnown++
-					st.Tag("known-failure")
-					continue
-				}
 				if cs.exact {
 					_, why := c05Close(cs.d, o.out, 1e-9)
 					c.R.Add(h.Finding{Stage: st.Name, Kind: "fail", What: o.name + ": absolute segments differ (exact) " + why, Input: key, Hex: h.HexS(cs.d), Impl: h.Q([]byte(o.out))})
@@ -732,11 +775,8 @@ func c05Paths(c *Ctx) error {
 				c.R.Add(h.Finding{Stage: st.Name, Kind: "diff", What: "Lean spec accepts but Go interpreter rejects: " + why, Input: key, Hex: h.HexS(cs.d), Impl: h.Q([]byte(o.out))})
 			}
 		}
-		// (i) correspondence with the model (not under a known-finding trigger, only on the exact domain)
-		if haz {
-			c.R.ExcludedKnown++
-			continue
-		}
+		// (i) correspondence with the model (only on the exact domain)
+		_ = haz
 		if !cs.exact {
 			continue
 		}
@@ -747,12 +787,74 @@ func c05Paths(c *Ctx) error {
 		if string(m0) != cs.direct {
 			c.R.Add(h.Finding{Stage: st.Name, Kind: "diff", What: "model.c05.shorten vs ShortenPathData", Input: key, Hex: h.HexS(cs.d), Impl: h.Q([]byte(cs.direct)), Model: h.Q(m0)})
 		}
-		if cs.docOK && strings.TrimSpace(cs.d) != "" {
+		if cs.docOK {
 			if !ok15 {
 				c.R.Add(h.Finding{Stage: st.Name, Kind: "diff", What: "model error: " + msg15, Input: key, Hex: h.HexS(cs.d)})
 			} else if string(m15) != cs.viaDoc {
 				c.R.Add(h.Finding{Stage: st.Name, Kind: "diff", What: "model.c05.shorten vs svg.Minify <path d>", Input: key, Hex: h.HexS(cs.d), Impl: h.Q([]byte(cs.viaDoc)), Model: h.Q(m15)})
 			}
+		}
+	}
+	st.End()
+	return nil
+}
+
+// c05Mutated: arbitrary (mostly invalid) path data: byte mutations of valid paths and fixed bad-flag inputs; only the
+// model correspondence is checked (bad format: minified prefix + rest of the input verbatim; garbage bytes skipped)
+func c05Mutated(c *Ctx) error {
+	n := c.N(15000, 300000)
+	st := c.R.StartStage("paths-mutated", "byte mutations (replace/insert/delete with one of `2.xeE-, AaZzLM0`) of generated valid exact paths + fixed inputs with bad arc flags and trailing-dot numbers; real ShortenPathData vs Lean model byte for byte (no validity assumed); non-trivial = output differs from input")
+	var ds, outs []string
+	var lines []string
+	add := func(d string) {
+		if !c05Exact(d) {
+			return
+		}
+		out, crash := c05Direct(d)
+		if crash != "" {
+			c.R.Add(h.Finding{Stage: st.Name, Kind: "crash", What: "ShortenPathData: " + crash, Input: h.Q([]byte(d)), Hex: h.HexS(d)})
+			return
+		}
+		ds = append(ds, d)
+		outs = append(outs, out)
+		lines = append(lines, "model.c05.shorten "+h.HexS(d)+" "+h.Int(0)+" "+h.Int(0))
+	}
+	for _, d := range c05Invalid {
+		add(d)
+	}
+	alpha := "2.xeE-, AaZzLM0"
+	for i := 0; i < n; i++ {
+		r := c.Rng.Fork()
+		b := []byte(c05GenPath(r, r.Chance(30), false))
+		for k := 0; k < 1+r.Intn(2) && len(b) > 0; k++ {
+			pos := r.Intn(len(b))
+			ch := alpha[r.Intn(len(alpha))]
+			switch r.Intn(3) {
+			case 0:
+				b[pos] = ch
+			case 1:
+				b = append(b[:pos], append([]byte{ch}, b[pos:]...)...)
+			default:
+				b = append(b[:pos], b[pos+1:]...)
+			}
+		}
+		add(string(b))
+	}
+	rep, err := h.Eval(lines)
+	if err != nil {
+		return err
+	}
+	for i, d := range ds {
+		key := h.Q([]byte(d))
+		got, ok, msg := h.DecodeReply(rep[i])
+		if !ok && strings.Contains(msg, "driver's range") {
+			continue
+		}
+		st.Count(key, d != outs[i])
+		if !ok {
+			c.R.Add(h.Finding{Stage: st.Name, Kind: "diff", What: "model error: " + msg, Input: key, Hex: h.HexS(d)})
+		} else if string(got) != outs[i] {
+			c.R.Add(h.Finding{Stage: st.Name, Kind: "diff", What: "model.c05.shorten vs ShortenPathData (mutated input)", Input: key, Hex: h.HexS(d), Impl: h.Q([]byte(outs[i])), Model: h.Q(got)})
 		}
 	}
 	st.End()
@@ -811,13 +913,9 @@ func c05Tolerance(c *Ctx) error {
 		ok, why := c05Close(t.d, t.out, 1e-9)
 		if vd.hazards != "" {
 			st.Tag("trigger=" + strings.Split(vd.hazards, ",")[0])
-			c.R.ExcludedKnown++
-			if !ok && strings.HasPrefix(why, "output is not valid") {
-				c.R.Add(h.Finding{Stage: st.Name, Kind: "fail", What: why, Input: key, Hex: h.HexS(t.d), Impl: h.Q([]byte(t.out))})
-			}
-			continue
+		} else {
+			st.Tag("trigger=none")
 		}
-		st.Tag("trigger=none")
 		if vd.equiv {
 			st.Tag("exact-equal")
 		} else {
